@@ -701,7 +701,7 @@ fn decode_program(mut idx: u64, depth_max: usize) -> (usize, Vec<OpK>) {
 }
 
 fn enumerated(cfg: &RunCfg) -> Outcome {
-    let depth = if cfg.tier == crate::run::Tier::Thorough { 4 } else { 3 };
+    let depth = if cfg.tier == crate::run::Tier::Thorough { 5 } else { 4 };
     let (script, prog) = decode_program(cfg.index, depth);
     let mut o = run_program(script, &prog, false, false);
     o.case_hash = cfg.index;
@@ -737,12 +737,12 @@ fn sampled(cfg: &RunCfg) -> Outcome {
 }
 
 pub fn spec() -> PropertySpec {
-    let n3 = 13 * (15 + 225 + 3375) as u64;
-    let n4 = 13 * (15 + 225 + 3375 + 50_625) as u64;
+    let n3 = 13 * (15 + 225 + 3375 + 50_625) as u64;
+    let n4 = 13 * (15 + 225 + 3375 + 50_625 + 759_375) as u64;
     PropertySpec {
         id: "C05",
         level: "exploration",
-        rule: "HttpConn methods called directly on a connection whose stream is the simulated TcpStream. Enumerated stage: EVERY program of depth <= 3 (quick) / <= 4 (thorough) over 15 operations {read_request, read_body_to_vec, read_body_to_file(max in {0, len-1, len, 2^40, u64::MAX}), write_http_continue, write_response(102 | 200 | 404 | 500 | non-writable kind | conflicting header), shutdown_write} x 13 client scripts {nothing+FIN, bodiless, small known body, known body + pipelined request, Expect+body, unknown-length, chunked, truncated body, garbage, gzip, body larger than the 8 KiB buffer, Expect+unknown length, three pipelined}, client pre-written + FIN. Sampled stage: programs of depth 1-7 with interleaved delivery (short reads, spurious Pending, bytes fed only when a call waits) and clients that withhold the body until they see 100 Continue. Oracle: explicit-state reference model (read state x write state x stream cursor) predicting result, states, is_ready(), write-side shutdown and the bytes on the wire after every call; misuse must leave the wire unchanged. distinct = (script, program, delivery mode).",
+        rule: "HttpConn methods called directly on a connection whose stream is the simulated TcpStream. Enumerated stage: EVERY program of depth <= 4 (quick) / <= 5 (thorough) over 15 operations {read_request, read_body_to_vec, read_body_to_file(max in {0, len-1, len, 2^40, u64::MAX}), write_http_continue, write_response(102 | 200 | 404 | 500 | non-writable kind | conflicting header), shutdown_write} x 13 client scripts {nothing+FIN, bodiless, small known body, known body + pipelined request, Expect+body, unknown-length, chunked, truncated body, garbage, gzip, body larger than the 8 KiB buffer, Expect+unknown length, three pipelined}, client pre-written + FIN. Sampled stage: programs of depth 1-7 with interleaved delivery (short reads, spurious Pending, bytes fed only when a call waits) and clients that withhold the body until they see 100 Continue. Oracle: explicit-state reference model (read state x write state x stream cursor) predicting result, states, is_ready(), write-side shutdown and the bytes on the wire after every call; misuse must leave the wire unchanged. distinct = (script, program, delivery mode).",
         scenarios: vec![
             Scenario { name: "c05.enumerated", property: "C05", func: enumerated, runs_quick: n3, runs_thorough: n4, doc: "all programs up to the depth bound" },
             Scenario { name: "c05.sampled", property: "C05", func: sampled, runs_quick: 1_000_000, runs_thorough: 20_000_000, doc: "deeper programs, interleaved delivery" },
